@@ -145,7 +145,7 @@ Proof.
     assert (Ha : forall t h, keeps t (set_rh (t_rh t ++ [h]) t)) by (intros; unfold keeps; cbn; tauto).
     assert (Hk : forall t b, keeps t (set_chunked b t)) by (intros; unfold keeps; cbn; tauto).
     destruct (negb (t_v11 t2)).
-    - destruct (beqb conn _ && negb fc); [|apply keeps_scof]. destruct (negb (truthy clh)); [apply keeps_scof|apply Ha].
+    - destruct (beqb conn _ && negb fc && negb (t_cof t2)); [|apply keeps_scof]. destruct (negb (truthy clh)); [apply keeps_scof|apply Ha].
     - set (t3 := if beqb conn _ || fc then _ else t2).
       assert (K3 : keeps t2 t3) by (subst t3; destruct (beqb conn _ || fc); [apply keeps_scof|apply keeps_refl]).
       destruct (negb (truthy clh)); auto.
@@ -238,7 +238,7 @@ Proof.
     - destruct (task_write cap lower c r disc s []) as [s1 o1] eqn:E. apply task_write_facts in E. exact E.
     - cbn. repeat split; auto. intros; discriminate. }
   destruct r1 as [[t ch] [u|e1]]; cbn [fst snd] in F; destruct F as (F1 & F2 & F3).
-  - destruct (t_chunked t).
+  - destruct (t_chunked t && negb (r_head r)).
     + destruct (write_soon disc ch (WBytes chunk_terminator)) as [ch1 o1] eqn:Ews.
       intro H; inversion H; subst; cbn [fst]. repeat split; auto.
       intros e ->. right. right. eapply write_soon_bytes_exn; eauto.
@@ -297,34 +297,7 @@ Lemma task_service_out s job e :
   x_out (task_run cap lower c r disc s job) = Exn e.
 Proof.
   unfold task_service. destruct (x_out (task_run cap lower c r disc s job)) as [u|e0] eqn:E; [rewrite E; discriminate|].
-  destruct (is_OSError e0); cbn [x_out]; [destruct (c_log_socket_errors c)|rewrite E]; congruence.
-Qed.
-
-(* Every exception that leaves HTTPChannel.service() is either a non-Exception
-   (BaseException subclass) raised through the application -- the open finding:
-   then there is neither a close decision nor a next request -- or an encode
-   error of the server's own 500 (server strings that are not latin-1). *)
-Theorem ladder_escape x raw e :
-  let res := ladder cap lower c r disc x raw in
-  o_escaped res = Some e ->
-  (is_Exception e = false /\ x_out x = Exn e /\ o_served_500 res = false
-   /\ o_close res = false /\ o_next res = false /\ o_writes res = o_writes1 res)
-  \/ (e = UnicodeEncodeError /\ o_served_500 res = true).
-Proof.
-  cbn zeta. unfold ladder.
-  destruct (x_out x) as [u|e0]; [cbn; discriminate|].
-  destruct (exn_eqb e0 ClientDisconnected); [cbn; discriminate|].
-  destruct (is_Exception e0) eqn:Eex.
-  - destruct (negb (t_wrote_header (fst (x_st x)))); [|cbn; discriminate].
-    match goal with |- context [task_service cap lower c ?er disc (?t1, ?ch1) (inr ?ee)] =>
-      set (er0 := er); set (ee0 := ee); set (ch0 := ch1) end.
-    pose proof (error_run_facts_er cap lower c er0 disc (new_task (r_version r) true) ch0 ee0 eq_refl) as [_ EF].
-    cbn zeta in EF.
-    destruct (x_out (task_service cap lower c er0 disc (new_task (r_version r) true, ch0) (inr ee0))) as [u1|e1] eqn:E1;
-      [cbn; discriminate|].
-    destruct (EF e1 E1) as [->| ->]; cbn [exn_eqb]; cbn; [|discriminate].
-    intro H; inversion H; subst. right. auto.
-  - cbn. intro H; inversion H; subst. left. repeat split; auto.
+  destruct (is_OSError e0); cbn [x_out]; [destruct (_ || _)|rewrite E]; congruence.
 Qed.
 
 (* how the first task's result relates to what its execute()/finish() raised *)
@@ -333,7 +306,8 @@ Definition service_rel (x : exec_result) (raw : option exn) : Prop :=
   | None => x_out x = Ok tt
   | Some e =>
       if is_OSError e then
-        x_out x = (if c_log_socket_errors c then Exn e else Ok tt) /\ t_cof (fst (x_st x)) = true
+        x_out x = (if c_log_socket_errors c || negb (t_wrote_header (fst (x_st x))) then Exn e else Ok tt)
+        /\ t_cof (fst (x_st x)) = true
       else x_out x = Exn e
   end.
 
@@ -344,7 +318,7 @@ Proof.
   unfold service_rel, task_service.
   destruct (x_out (task_run cap lower c r disc s job)) as [[]|e] eqn:E.
   - exact E.
-  - destruct (is_OSError e); cbn [x_out x_st fst]; auto.
+  - destruct (is_OSError e); cbn [x_out x_st fst t_wrote_header set_cof]; auto.
 Qed.
 
 (* the outcome of HTTPChannel.service(), by what the application did *)
@@ -356,10 +330,6 @@ Definition outcome_spec (res : result) : Prop :=
       o_escaped res = None /\ o_served_500 res = false /\ o_writes res = o_writes1 res
   | Some e =>
       if exn_eqb e ClientDisconnected then quiet_close          (* the client went away *)
-      else if negb (is_Exception e) then                         (* BaseException subclass: the open finding *)
-        o_escaped res = Some e /\ o_close res = false /\ o_next res = false
-        /\ o_served_500 res = false /\ o_writes res = o_writes1 res
-      else if is_OSError e && negb (c_log_socket_errors c) then quiet_close   (* swallowed by `except OSError` *)
       else if o_wrote_header1 res then quiet_close               (* failure after output began *)
       else                                                       (* failure before any output *)
         o_served_500 res = true
@@ -367,53 +337,54 @@ Definition outcome_spec (res : result) : Prop :=
         /\ (forall e1, o_escaped res = Some e1 -> e1 = UnicodeEncodeError)
   end.
 
+Definition quiet_close_of (res : result) : Prop :=
+  o_close res = true /\ o_next res = false /\ o_escaped res = None
+  /\ o_served_500 res = false /\ o_writes res = o_writes1 res.
+
+Lemma ladder_raised x raw e : x_out x = Exn e ->
+  let res := ladder cap lower c r disc x raw in
+  if exn_eqb e ClientDisconnected then quiet_close_of res
+  else if t_wrote_header (fst (x_st x)) then quiet_close_of res
+  else o_served_500 res = true
+       /\ (o_escaped res = None -> o_close res = true /\ o_next res = false)
+       /\ (forall e1, o_escaped res = Some e1 -> e1 = UnicodeEncodeError).
+Proof.
+  intro Hout. cbn zeta. unfold quiet_close_of, ladder. rewrite Hout.
+  destruct (exn_eqb e ClientDisconnected) eqn:Ecd.
+  { cbn. repeat split; auto. }
+  destruct (t_wrote_header (fst (x_st x))) eqn:W; cbn [negb].
+  - cbn. repeat split; auto.
+  - match goal with |- context [task_service cap lower c ?er disc (?t1, ?ch1) (inr ?ee)] =>
+      set (er0 := er); set (ee0 := ee); set (ch0 := ch1) end.
+    remember (task_service cap lower c er0 disc (new_task (r_version r) true, ch0) (inr ee0)) as x1 eqn:Hx1.
+    assert (EFacts : t_cof (fst (x_st x1)) = true
+                     /\ (forall ex, x_out x1 = Exn ex -> ex = UnicodeEncodeError \/ ex = ClientDisconnected))
+      by (subst x1; apply (error_run_facts_er cap lower c er0 disc (new_task (r_version r) true) ch0 ee0 eq_refl)).
+    destruct EFacts as [ECof EF]. clear Hx1.
+    destruct (x_out x1) as [u1|e1] eqn:E1.
+    + cbn. rewrite ECof. repeat split; auto. intros; discriminate.
+    + destruct (EF e1 eq_refl) as [->| ->]; cbn [exn_eqb]; cbn.
+      * repeat split; auto; try discriminate. intros e1 H; inversion H; auto.
+      * repeat split; auto. intros; discriminate.
+Qed.
+
 Theorem ladder_outcome x raw : service_rel x raw -> outcome_spec (ladder cap lower c r disc x raw).
 Proof.
   intro Hrel. unfold outcome_spec.
   destruct (ladder_fields cap lower c r disc x raw) as (_ & _ & _ & Eraw & Ew1 & Ewh & _). cbn zeta in *.
-  rewrite Eraw, Ewh. clear Eraw. unfold service_rel in Hrel.
+  rewrite Eraw, Ewh. unfold service_rel in Hrel.
   destruct raw as [e|].
   2: { unfold ladder. rewrite Hrel. cbn. auto. }
   destruct (is_OSError e) eqn:Eos.
-  - (* an OSError subclass *)
-    destruct e; try discriminate. cbn [exn_eqb is_Exception negb is_OSError andb].
-    destruct Hrel as [Hout Hcof].
-    destruct (c_log_socket_errors c); cbn [negb].
-    + unfold ladder. rewrite Hout. cbn [exn_eqb is_Exception].
-      destruct (t_wrote_header (fst (x_st x))) eqn:W; cbn [negb].
-      * cbn. repeat split; auto.
-      * match goal with |- context [task_service cap lower c ?er disc (?t1, ?ch1) (inr ?ee)] =>
-          set (er0 := er); set (ee0 := ee); set (ch0 := ch1) end.
-        remember (task_service cap lower c er0 disc (new_task (r_version r) true, ch0) (inr ee0)) as x1 eqn:Hx1.
-        assert (EFacts : t_cof (fst (x_st x1)) = true
-                         /\ (forall ex, x_out x1 = Exn ex -> ex = UnicodeEncodeError \/ ex = ClientDisconnected))
-          by (subst x1; apply (error_run_facts_er cap lower c er0 disc (new_task (r_version r) true) ch0 ee0 eq_refl)).
-        destruct EFacts as [ECof EF]. clear Hx1.
-        destruct (x_out x1) as [u1|e1] eqn:E1.
-        -- cbn. rewrite ECof. repeat split; auto. intros; discriminate.
-        -- destruct (EF e1 eq_refl) as [->| ->]; cbn [exn_eqb]; cbn.
-           ++ repeat split; auto; try discriminate. intros e1 H; inversion H; auto.
-           ++ repeat split; auto. intros; discriminate.
-    + unfold ladder. rewrite Hout. cbn. rewrite Hcof. cbn. repeat split; auto.
-  - unfold ladder. rewrite Hrel. cbn [andb].
-    destruct (exn_eqb e ClientDisconnected) eqn:Ecd.
-    { cbn. repeat split; auto. }
-    destruct (is_Exception e) eqn:Eex; cbn [negb].
-    2: { cbn. repeat split; auto. }
-    destruct (t_wrote_header (fst (x_st x))) eqn:W; cbn [negb].
-    + cbn. repeat split; auto.
-    + match goal with |- context [task_service cap lower c ?er disc (?t1, ?ch1) (inr ?ee)] =>
-        set (er0 := er); set (ee0 := ee); set (ch0 := ch1) end.
-      remember (task_service cap lower c er0 disc (new_task (r_version r) true, ch0) (inr ee0)) as x1 eqn:Hx1.
-      assert (EFacts : t_cof (fst (x_st x1)) = true
-                       /\ (forall ex, x_out x1 = Exn ex -> ex = UnicodeEncodeError \/ ex = ClientDisconnected))
-        by (subst x1; apply (error_run_facts_er cap lower c er0 disc (new_task (r_version r) true) ch0 ee0 eq_refl)).
-      destruct EFacts as [ECof EF]. clear Hx1.
-      destruct (x_out x1) as [u1|e1] eqn:E1.
-      * cbn. rewrite ECof. repeat split; auto. intros; discriminate.
-      * destruct (EF e1 eq_refl) as [->| ->]; cbn [exn_eqb]; cbn.
-        -- repeat split; auto; try discriminate. intros e1 H; inversion H; auto.
-        -- repeat split; auto. intros; discriminate.
+  - destruct Hrel as [Hout Hcof].
+    destruct e; try discriminate. cbn [exn_eqb].
+    destruct (t_wrote_header (fst (x_st x))) eqn:W.
+    + destruct (c_log_socket_errors c); cbn [orb negb] in Hout.
+      * pose proof (ladder_raised x (Some AppOSError) _ Hout) as L. cbn zeta in L. cbn [exn_eqb] in L. rewrite W in L. exact L.
+      * unfold ladder. rewrite Hout. cbn. rewrite Hcof. cbn. repeat split; auto.
+    + rewrite orb_true_r in Hout.
+      pose proof (ladder_raised x (Some AppOSError) _ Hout) as L. cbn zeta in L. cbn [exn_eqb] in L. rewrite W in L. exact L.
+  - exact (ladder_raised x (Some e) e Hrel).
 Qed.
 
 Theorem service_outcome a : outcome_spec (channel_service cap lower c r a disc).
@@ -511,7 +482,7 @@ Qed.
 
 End NoLeak.
 
-(* ---- the open findings, as witnesses ---------------------------------------- *)
+(* ---- the repaired classes, as instances ------------------------------------- *)
 
 Definition base_app : app :=
   mkApp [ARaise AppBaseException] KGen [] true None.
@@ -520,17 +491,20 @@ Definition oserr_app : app :=
 Definition quiet_cfg : cfg :=
   mkCfg (lit "waitress") false false (lit "Thu, 01 Jan 2026 00:00:00 GMT") (lit "TB").
 
-(* F15: a BaseException subclass escapes: no bytes, no close decision, no next request *)
-Lemma baseexception_limbo :
+(* a BaseException subclass raised by the application is answered like any other
+   failure before output: the 500, then close (before 72e39ad it escaped) *)
+Lemma baseexception_contained :
   let res := run_task sample_cfg sample_req base_app None in
-  o_escaped res = Some AppBaseException /\ o_writes res = [] /\ o_close res = false /\ o_next res = false.
+  o_escaped res = None /\ o_served_500 res = true /\ o_close res = true /\ o_next res = false
+  /\ o_writes res = response_500 py_cap py_lower sample_cfg sample_req None 0.
 Proof. vm_compute. repeat split; reflexivity. Qed.
 
-(* F16: an application OSError before any output with log_socket_errors off: silent close, no 500 *)
-Lemma oserror_swallowed :
+(* an application OSError before any output with log_socket_errors off: the 500
+   (before 4ec4884 a silent close) *)
+Lemma oserror_answered :
   let res := run_task quiet_cfg sample_req oserr_app None in
   o_raw res = Some AppOSError /\ o_wrote_header1 res = false
-  /\ o_served_500 res = false /\ o_writes res = [] /\ o_close res = true.
+  /\ o_served_500 res = true /\ o_close res = true /\ o_escaped res = None.
 Proof. vm_compute. repeat split; reflexivity. Qed.
 
 (* ---- corollaries in the form used by Props/C09.v ----------------------------- *)
@@ -539,12 +513,10 @@ Section Corollaries.
 Variable cap : str -> str.
 Variable lower : str -> str.
 
-Theorem contained_partial c r a disc e :
+Theorem contained c r a disc e :
   let res := channel_service cap lower c r a disc in
   o_raw res = Some e ->
   exn_eqb e ClientDisconnected = false ->
-  is_Exception e = true ->
-  (is_OSError e = false \/ c_log_socket_errors c = true) ->
   (o_wrote_header1 res = true ->
      o_close res = true /\ o_next res = false /\ o_escaped res = None
      /\ o_served_500 res = false /\ o_writes res = o_writes1 res)
@@ -553,32 +525,23 @@ Theorem contained_partial c r a disc e :
      /\ (o_escaped res = None -> o_close res = true /\ o_next res = false)
      /\ (forall e1, o_escaped res = Some e1 -> e1 = UnicodeEncodeError)).
 Proof.
-  cbn zeta. intros Hraw Hcd Hex Hos.
+  cbn zeta. intros Hraw Hcd.
   pose proof (service_outcome cap lower c r disc a) as H. unfold outcome_spec in H.
-  rewrite Hraw, Hcd, Hex in H. cbn [negb] in H.
-  assert (Hsw : is_OSError e && negb (c_log_socket_errors c) = false).
-  { destruct Hos as [->| ->]; [reflexivity|]. destruct (is_OSError e); reflexivity. }
-  rewrite Hsw in H.
+  rewrite Hraw, Hcd in H.
   destruct (o_wrote_header1 (channel_service cap lower c r a disc)); split; intro W; try discriminate; exact H.
 Qed.
 
-Theorem escape_partial c r a disc e :
+Theorem escape_only_encode c r a disc e :
   let res := channel_service cap lower c r a disc in
-  o_escaped res = Some e ->
-  (is_Exception e = false /\ o_raw res = Some e /\ o_served_500 res = false
-   /\ o_close res = false /\ o_next res = false)
-  \/ (e = UnicodeEncodeError /\ o_served_500 res = true).
+  o_escaped res = Some e -> e = UnicodeEncodeError /\ o_served_500 res = true.
 Proof.
   cbn zeta. intro Hesc.
   pose proof (service_outcome cap lower c r disc a) as H. unfold outcome_spec in H.
   destruct (o_raw (channel_service cap lower c r a disc)) as [e0|] eqn:Eraw.
   2: { destruct H as (H & _). congruence. }
   destruct (exn_eqb e0 ClientDisconnected); [destruct H as (_ & _ & H & _); congruence|].
-  destruct (is_Exception e0) eqn:Eex; cbn [negb] in H.
-  - destruct (is_OSError e0 && negb (c_log_socket_errors c)); [destruct H as (_ & _ & H & _); congruence|].
-    destruct (o_wrote_header1 _); [destruct H as (_ & _ & H & _); congruence|].
-    destruct H as (H1 & _ & H3). right. split; auto.
-  - destruct H as (H1 & H2 & H3 & H4 & _). left. assert (e0 = e) by congruence. subst e0. repeat split; auto.
+  destruct (o_wrote_header1 _); [destruct H as (_ & _ & H & _); congruence|].
+  destruct H as (H1 & _ & H3). split; auto.
 Qed.
 
 End Corollaries.
